@@ -12,6 +12,7 @@ import Dalek.Driver.Codec
 import Dalek.Driver.Fast
 import Dalek.Driver.Raw
 import Dalek.Driver.SelfTest
+import Dalek.Model.ConstCheck
 
 namespace Dalek.Driver
 open Dalek.Spec Dalek.Model
@@ -677,6 +678,12 @@ def handleOp (legacy : Bool) (op : String) (args : List String) : M Resp := do
   | ["selftest"] => do
     let (n, failed) := SelfTest.run ()
     if failed.isEmpty then ok [toString n] else pure (Resp.errMsg (",".intercalate failed))
+  | ["const", "report"] =>
+    -- names of the constant/table checks (Dalek.Model.ConstCheck, over the REGENERATED literals) that fail, and failing table entries
+    let failed := Dalek.Model.ConstCheck.failedChecks
+    let tabs := Dalek.Model.ConstCheck.tableFailures.filter (fun t => !t.2.isEmpty)
+    let tabStr := tabs.map (fun t => t.1 ++ "=" ++ "/".intercalate (t.2.map (fun ij => s!"{ij.1}:{ij.2}")))
+    ok [if failed.isEmpty then "-" else ",".intercalate failed, if tabStr.isEmpty then "-" else ",".intercalate tabStr]
   | "fe" :: _ => fieldOp op args
   | ["vfe", arch, name] => vfeOp arch name args
   | "sc" :: _ => scalarOp op args
